@@ -184,6 +184,19 @@ def run_history(S, case):
         cfg = make_config(jobs, **kw)
         sim.deps = {x: set(b) for x, b, _ in jobs}
         sim.out = out
+        # C16: the setup / teardown commands of the submission (half of the histories configure them); only the command runners imported into
+        # jade.jobs.job_submitter are replaced by recorders
+        lifecycle = []
+        if case["seed"] % 2:
+            cfg.setup_command = "echo submission-setup"
+            cfg.teardown_command = "echo submission-teardown"
+        orig_crc, orig_rc = JS.check_run_command, JS.run_command
+
+        def rec_lifecycle(cmd, env=None, **k_):
+            lifecycle.append((cmd, len(sim.sbatch), (env or {}).get("JADE_RUNTIME_OUTPUT"), status(out).config.is_complete if os.path.exists(os.path.join(out, "cluster_config.json")) else None))
+            return 0
+        JS.check_run_command, JS.run_command = rec_lifecycle, rec_lifecycle
+        restore.append(lambda: (setattr(JS, "check_run_command", orig_crc), setattr(JS, "run_command", orig_rc)))
         fault = case.get("fault")          # None | ("sbatch_raise", k) | ("squeue", round) | ("sbatch_error", k) | ("lose", k)
         if fault and fault[0] == "sbatch_raise":
             sim.fail_sbatch_call = fault[1]
@@ -268,6 +281,24 @@ def run_history(S, case):
                     fails.append("C05: all batches ended, submission not complete, and a try-submit-jobs round neither submitted nor completed")
         if sim.early and not (fault and fault[0] in ("lose", "sbatch_error")):
             fails.append(f"C02: handed to the scheduler before a blocker in another batch had an outcome: {sim.early[:3]}")
+        setups = [e for e in lifecycle if e[0] == "echo submission-setup"]
+        tears = [e for e in lifecycle if e[0] == "echo submission-teardown"]
+        if case["seed"] % 2:
+            if len(setups) != 1:
+                fails.append(f"C16: the setup command ran {len(setups)} times over the whole submission")
+            elif setups[0][1] != 0:
+                fails.append(f"C16: the setup command ran after {setups[0][1]} batch(es) had been handed to the scheduler")
+            elif setups[0][2] != str(out):
+                fails.append(f"C16: the setup command saw JADE_RUNTIME_OUTPUT={setups[0][2]!r}")
+            if status(out).config.is_complete and not crashed:
+                if len(tears) != 1:
+                    fails.append(f"C16: the teardown command ran {len(tears)} times for a completed submission")
+                elif tears[0][3]:
+                    fails.append("C16: the teardown command ran after the completion flag was set")
+            elif len(tears) > 1:
+                fails.append(f"C16: the teardown command ran {len(tears)} times")
+        elif setups or tears:
+            fails.append("C16: lifecycle commands ran although none is configured")
         placed = [x for _, _, js in sim.sbatch for x in js]
         if len(placed) != len(set(placed)):
             dup = sorted({x for x in placed if placed.count(x) > 1})
